@@ -1294,6 +1294,13 @@ func (gc GoCode) Write(w io.Writer, indent int) error {
 		source = []byte(gc.Expression.Value)
 	}
 	if !gc.Multiline {
+		if endsWithLineComment(string(source)) {
+			// Closing braces on the same line would become part of the comment.
+			if err := writeIndent(w, indent, `{{ `, string(source), "\n"); err != nil {
+				return err
+			}
+			return writeIndent(w, indent, `}}`)
+		}
 		return writeIndent(w, indent, `{{ `, string(source), ` }}`)
 	}
 	if err := writeIndent(w, indent, "{{"+string(source)+"\n"); err != nil {
